@@ -124,6 +124,7 @@ def run(chk):
             if got != w:
                 chk.violation("c08:search:inexact", f"{e} under maximum_search={L} gives {d}; expected {w} (a search may examine at most L elements)",
                               {"src": f"let r = {e};", "get": ["r"], "limits": {"search": L}, "expected": w, "got": d})
+    search_exactness(chk, rng, 60 if quick else 700)
     # ---- the whole exported library surface: under any call / depth / search limit a call that runs user callbacks ends
     #      in that limit's violation or in exactly the unlimited outcome, monotonically in the limit
     from . import libprobe
@@ -135,3 +136,134 @@ def run(chk):
 
 def replay(path):
     return replay_file(path, "C08")
+
+
+# ---------------------------------------------------------------------------------------------- search exactness
+def _scan(vals, pred, i):
+    """number of elements a scan for the (i+1)-th match (i >= 0: forward; i < 0: backward, |i|-th) examines"""
+    order = list(vals) if i >= 0 else list(reversed(vals))
+    want = i + 1 if i >= 0 else -i
+    seen = 0
+    for n, v in enumerate(order, 1):
+        if pred(v):
+            seen += 1
+            if seen == want:
+                return n
+    return len(order)
+
+
+def search_exactness(chk, rng, ncases):
+    """Every searching builtin, in every direction and through the library wrappers: with maximum_search = L the
+    evaluation is a MaximumSearch violation exactly when the scan has to examine more than L elements (the number is
+    computed here, independently, from the list semantics of the call), and otherwise the result is the unlimited
+    one.  Families: nth (forward and backward index), first / last / any / all (wrappers), take_while / skip_until on
+    sequences, nth / first / any / all on finite and infinite generators, and the element-wise eq / cmp / to_str / hash
+    of sequences."""
+    cases = []      # (expression, examined)
+
+    def pred_of():
+        k = rng.choice(["ge", "lt", "mod", "eq"])
+        if k == "ge":
+            t = rng.randint(-2, 14)
+            return f"(x: int)->{{x >= {lit(t)}}}", (lambda v, t=t: v >= t)
+        if k == "lt":
+            t = rng.randint(-2, 14)
+            return f"(x: int)->{{x < {lit(t)}}}", (lambda v, t=t: v < t)
+        if k == "eq":
+            t = rng.randint(0, 12)
+            return f"(x: int)->{{x == {t}}}", (lambda v, t=t: v == t)
+        m = rng.choice([2, 3, 5]); r = rng.randrange(m)
+        return f"(x: int)->{{x % {m} == {r}}}", (lambda v, m=m, r=r: v % m == r)
+
+    def source():
+        n = rng.choice([0, 1, 2, 3, 5, 8, 12, 20])
+        kind = rng.choice(["range", "array", "rev", "mapped"])
+        if kind == "range":
+            return f"range({n})", list(range(n))
+        if kind == "rev":
+            return f"range({n}).reverse()", list(reversed(range(n)))
+        vals = [rng.randint(0, 12) for _ in range(n)]
+        if kind == "mapped" and n:
+            return "[" + ", ".join(str(v - 1) for v in vals) + "].map((x: int)->{x + 1})", vals
+        return ("[" + ", ".join(map(str, vals)) + "]") if n else "range(0)", vals
+
+    for _ in range(ncases):
+        fam = rng.choice(["nth", "nth", "nth-", "nth-", "first", "last", "any", "all", "take_while", "skip_until",
+                          "gen-nth", "gen-first", "gen-any", "inf-nth", "eq", "cmp", "to_str", "hash"])
+        src, vals = source()
+        ptxt, pf = pred_of()
+        if fam in ("nth", "nth-"):
+            i = rng.randint(0, 4) if fam == "nth" else -rng.randint(1, 4)
+            cases.append((f"nth({src}, {lit(i)}, {ptxt})", _scan(vals, pf, i)))
+        elif fam == "first":
+            cases.append((f"first({src}, {ptxt})", _scan(vals, pf, 0)))
+        elif fam == "last":
+            cases.append((f"last({src}, {ptxt})", _scan(vals, pf, -1)))
+        elif fam == "any":
+            cases.append((f"any({src}, {ptxt})", _scan(vals, pf, 0)))
+        elif fam == "all":
+            cases.append((f"all({src}, {ptxt})", _scan(vals, lambda v: not pf(v), 0)))
+        elif fam == "take_while":
+            cases.append((f"take_while({src}, {ptxt}).to_array()", _scan(vals, lambda v: not pf(v), 0)))
+        elif fam == "skip_until":
+            cases.append((f"skip_until({src}, {ptxt}).to_array()", _scan(vals, pf, 0)))
+        elif fam == "gen-nth":
+            i = rng.randint(0, 4)
+            cases.append((f"nth({src}.to_generator(), {i}, {ptxt})", _scan(vals, pf, i)))
+        elif fam == "gen-first":
+            cases.append((f"first({src}.to_generator(), {ptxt})", _scan(vals, pf, 0)))
+        elif fam == "gen-any":
+            cases.append((f"any({src}.to_generator(), {ptxt})", _scan(vals, pf, 0)))
+        elif fam == "inf-nth":
+            t = rng.randint(0, 14); i = rng.randint(0, 3)
+            cases.append((f"nth(count().to_generator(), {i}, (x: int)->{{x >= {t}}})", t + i + 1))
+        else:
+            src2, vals2 = source()
+            if rng.random() < 0.6:          # mostly a copy with one element changed, or a prefix: long common prefixes
+                vals2 = list(vals)
+                if vals2 and rng.random() < 0.7:
+                    j = rng.randrange(len(vals2)); vals2[j] += rng.choice([-1, 1])
+                elif rng.random() < 0.5:
+                    vals2 = vals2[:rng.randint(0, len(vals2))]
+                src2 = ("[" + ", ".join(map(str, vals2)) + "]") if vals2 else "range(0)"
+            common_prefix = 0
+            for a, b in zip(vals, vals2):
+                common_prefix += 1
+                if a != b:
+                    break
+            if fam == "eq":
+                cases.append((f"({src} == {src2})", common_prefix if len(vals) == len(vals2) else 0))
+            elif fam == "cmp":
+                cases.append((f"cmp({src}, {src2})", common_prefix))
+            elif fam == "to_str":
+                cases.append((f"to_str({src})", len(vals)))
+            else:
+                cases.append((f"hash({src})", len(vals)))
+    runs = []
+    for e, ex in cases:
+        for L in sorted({1, 2, max(1, ex - 1), max(1, ex), ex + 1, ex + 3, rng.randint(1, 25)}):
+            runs.append((e, ex, L))
+    base = eval_exprs([e for e, ex in cases], limits={"ud_calls": 100000, "time_ms": 5000}, chunk=20)
+    unl = {e: d for (e, ex), d in zip(cases, base)}
+    byL = {}
+    for e, ex, L in runs:
+        byL.setdefault(L, []).append((e, ex))
+    for L, items in sorted(byL.items()):
+        dumps = eval_exprs([e for e, ex in items], limits={"search": L, "ud_calls": 100000, "time_ms": 5000}, chunk=1)
+        for (e, ex), d in zip(items, dumps):
+            chk.evaluations += 1
+            chk.count("c08:search-exact")
+            fam = e.split("(")[0] or "eq"
+            chk.count(f"c08:search-exact:{fam}:{'over' if ex > L else 'within'}")
+            want = "viol MaximumSearch" if ex > L else unl[e]
+            if unl[e] in ("hang", "abort") or unl[e].startswith("panic") or unl[e].startswith("compile-err"):
+                chk.count("c08:search-exact:skipped:" + unl[e].split()[0])
+                continue
+            chk.nontrivial.add(f"{e}@{L}")
+            ok = d.startswith("viol MaximumSearch") if ex > L else d == want
+            if not ok:
+                chk.violation(f"c08:search:inexact:{fam}:{'missed' if ex > L else 'early'}",
+                              f"`{e}` has to examine {ex} element(s); under maximum_search={L} the implementation gives {d}, expected {want} "
+                              f"(a violation exactly when more than L elements are examined, else the unlimited result)",
+                              {"src": f"let r = {e};", "get": ["r"], "limits": {"search": L}, "expected": want, "got": d, "examined": ex})
+    chk.sample({"search-exact": cases[0][0], "examined": cases[0][1]})
